@@ -488,6 +488,8 @@ type Clause struct {
 	Props []string
 	Expr  SExpr
 	Src   string
+	// LogGhost: for a `logs` clause, the ghost that is assigned
+	LogGhost string
 }
 
 type LoopSpec struct {
@@ -521,6 +523,7 @@ type Contract struct {
 	Asserts     map[string]*Clause
 	Lemmas      []string // lemma instantiations "use" at entry
 	Reveal      []string // opaque pure functions whose definitions are revealed
+	Logs        []*Clause // call bookkeeping (see "logs")
 }
 
 type PureFunc struct {
@@ -728,6 +731,30 @@ func (db *SpecDB) loadSpecFile(path, pkgRel string) error {
 			} else {
 				cur.Ensures = append(cur.Ensures, c)
 			}
+		case "logs":
+			// logs g == e : bookkeeping of calls to a PROVED function. At every call site (and at
+			// the function's own returns) ghost g is assigned the value e (over parameters, results,
+			// old(g)); nothing is proved about it and nothing can be contradicted by it, because g is
+			// only ever assigned, never constrained by the body.
+			if cur == nil {
+				return fail(i, fmt.Errorf("logs outside func"))
+			}
+			c, err := parseClause(rest, cur.Props)
+			if err != nil {
+				return fail(i, err)
+			}
+			g := ""
+			if op, ok := c.Expr.(*SBinary); ok && op.Op == "==" {
+				if id, ok := op.X.(*SIdent); ok {
+					g = id.Name
+				}
+			}
+			if g == "" {
+				return fail(i, fmt.Errorf("logs: expected `ghost == expression`"))
+			}
+			c.LogGhost = g
+			cur.Logs = append(cur.Logs, c)
+			cur.Modifies = append(cur.Modifies, ModTarget{Kind: "ghost", Name: g})
 		case "panics_unless":
 			if cur == nil {
 				return fail(i, fmt.Errorf("panics_unless outside func"))
